@@ -184,7 +184,9 @@ def name(rng):
 
 
 def full_frag(rng):
-    s = name(rng) + rng.choice([" v. ", " v ", " vs. ", " v. "]) + name(rng) + rng.choice([", ", " ", ",  ", ", "])
+    p = name(rng)
+    d = p if rng.random() < 0.05 else name(rng)          # same name on both sides ("Jones v. Jones")
+    s = p + rng.choice([" v. ", " v ", " vs. ", " v. "]) + d + rng.choice([", ", " ", ",  ", ", "])
     s += f"{num(rng)} {rep(rng)} {num(rng)}"
     if rng.random() < 0.4:
         s += ", " + num(rng)
@@ -243,8 +245,12 @@ def frag(rng):
         return rng.choice(["42 U.S.C. § 1983", "Mass. Gen. Laws ch. 1, § 2 (West 1999)", "§ 5", "§§ 1-2",
                            "29 C.F.R. § 1910.1200(a)(2)", "Fla. Stat. § 1.01 (2020)",
                            "1 Stat. 2", "Pub. L. No. 94-553"])
-    if r < 0.75:
+    if r < 0.73:
         return f"{name(rng)} at {num(rng)}"
+    if r < 0.75:
+        # a multi-word name written with different white space than in its full citation
+        n = rng.choice(["Bell Atlantic Corp.", "Theatre Enterprises", "Mar. Overseas Corp.", "De la Cruz", "Acme Corp."])
+        return f"{n.replace(' ', rng.choice(['  ', chr(10), ' ' + chr(10), chr(9)]))} at {num(rng)}"
     if r < 0.77:
         # a reference whose pin-cite digits are also the volume of a following citation
         return f"{name(rng)} at {num(rng)} {rep(rng)}{rng.choice([',', ''])} {num(rng)}"
@@ -372,6 +378,8 @@ def mk_full(rng):
 
 def mk_ref(rng, n):
     r = rng.random()
+    if " " in n and rng.random() < 0.35:
+        n = n.split()[-1]          # shorthand by the last word of the name ("Corp.", "Co.", "Enterprises")
     if r < 0.12:
         # an emphasised ordinary word that equals a party name only when case is ignored
         w = rng.choice([n.lower(), n.upper(), n.swapcase()])
